@@ -18,6 +18,8 @@ import (
 )
 
 type childOut struct {
+	Partial  []core.Violation // violations the child reported before it died
+	Resume   []byte // tape that continues a batch after the delivery that killed the child
 	Res      *core.Result
 	Raw      string // the RESULT line
 	Stderr   string
@@ -87,6 +89,11 @@ func runChild(o childOpts) childOut {
 			} else {
 				out.Res = &r
 			}
+		case strings.HasPrefix(ln, "PARTIAL "):
+			var v core.Violation
+			if json.Unmarshal([]byte(ln[8:]), &v) == nil {
+				out.Partial = append(out.Partial, v)
+			}
 		case strings.HasPrefix(ln, "META "), strings.HasPrefix(ln, "TAPE "):
 			out.Raw = ln[5:]
 		case strings.HasPrefix(ln, "GENERR "):
@@ -120,6 +127,7 @@ func applyCrash(o *childOut, markFile string) {
 		Point  string          `json:"point"`
 		Tape   json.RawMessage `json:"tape"`
 		What   string          `json:"what"`
+		Resume json.RawMessage `json:"resume"`
 	}
 	if json.Unmarshal(mb, &mk) != nil || len(mk.Tape) == 0 {
 		return
@@ -154,7 +162,19 @@ func applyCrash(o *childOut, markFile string) {
 	o.Res = &core.Result{Engine: mk.Engine, Verdict: "violation", Evals: 1, Class: "crash", Nontrivial: true, Tape: mk.Tape,
 		Violations: []core.Violation{{Signature: sig, Detail: core.MustJSON(map[string]string{"delivery": mk.What, "stderr": tail(o.Stderr, 1500), "exit": fmt.Sprint(o.ExitCode)})}},
 		Stats:      map[string]int64{"crashed_children": 1}, Faults: map[string]int{}, Probes: map[string]int{}}
+	for _, v := range o.Partial {
+		dup := false
+		for _, w := range o.Res.Violations {
+			dup = dup || w.Signature == v.Signature
+		}
+		if !dup {
+			o.Res.Violations = append(o.Res.Violations, v)
+		}
+	}
 	o.Raw = string(core.MustJSON(o.Res))
+	if len(mk.Resume) > 2 {
+		o.Resume = mk.Resume
+	}
 }
 
 func getMeta(bin string) (core.Meta, error) {
@@ -197,11 +217,23 @@ func hasSig(r *core.Result, sig string) bool {
 		return false
 	}
 	for _, v := range r.Violations {
-		if v.Signature == sig {
+		if v.Signature == sig || sameResourceClass(v.Signature, sig) {
 			return true
 		}
 	}
 	return false
+}
+
+// sameResourceClass: a delivery that makes the consumer allocate without bound shows as an
+// allocation violation when it runs alone and as an out-of-memory crash (or a long stall) when the
+// process already holds memory from earlier deliveries; for reproduction these are one violation.
+func sameResourceClass(a, b string) bool {
+	pa, pb := strings.SplitN(a, "|", 3), strings.SplitN(b, "|", 3)
+	if len(pa) < 2 || len(pb) < 2 || pa[1] != pb[1] {
+		return false
+	}
+	res := func(k string) bool { return k == "crash" || k == "allocation" || k == "hang" }
+	return res(pa[0]) && res(pb[0])
 }
 
 func replayPath(prop, sig string) string {
